@@ -32,6 +32,7 @@ type Config struct {
 	AllocLimit       int             // sizes above this are reported as allocation out of proportion
 	PtrChoice        bool            // allow guarded pointer choices when merging
 	LazyFeas         bool            // do not query feasibility at branches that will be merged
+	SplitDims        []int           // sizes of the case-split dimensions the prefix was drawn from
 	Summarise        map[string]bool // pure functions evaluated per constant leaf of an ite-tree argument
 	Thorough         bool
 	Deadline         time.Time
